@@ -6,7 +6,7 @@ From PM Require Import Model.Prelude Model.Domain Model.Constraint Model.Automat
   Model.DomString Model.DomMatrix Cert.LabCheck Cert.CharCert Cert.ExampleAut
   Proofs.RunSound Proofs.LawfulDomains Proofs.BindMapMatrixProofs
   Spec.Occ Proofs.OccProofs Proofs.CellsProofs Proofs.OccString Proofs.OccMatrix
-  Model.DomPGKeys Model.DomPG Proofs.PGLawful.
+  Model.DomPGKeys Model.DomPG Cert.PGCert Proofs.PGLawful.
 
 (** generic over the domain: lawful binding maps, any host, any execution *)
 Theorem c01_run_sound :
